@@ -92,6 +92,11 @@ func main() {
 		return true
 	}
 	t1 := time.Now()
+	// lemmas are generated first (their datatypes must be known to every function context)
+	lemRes := map[*Lemma]*FuncResult{}
+	for _, lm := range eng.lemmas {
+		lemRes[lm] = eng.verifyLemma(lm)
+	}
 	var names []string
 	for n := range eng.contracts {
 		names = append(names, n)
@@ -143,10 +148,11 @@ func main() {
 	defer os.RemoveAll(dir)
 	// Lemmas are proved first, in file order; a proved lemma is an axiom for everything after it.
 	axioms := ""
+	fnAxioms := ""
 	for _, lm := range eng.lemmas {
-		r := eng.verifyLemma(lm)
+		r := lemRes[lm]
 		if !*gen {
-			dischargeAll(r.Obligations, basePrelude()+axioms, dir, *timeout, *seed, *workers, *both)
+			dischargeAll(r.Obligations, basePrelude()+axiomMarker+axioms, dir, *timeout, *seed, *workers, *both)
 		}
 		ok := len(r.Obligations) > 0 && len(r.Errors) == 0
 		for _, ob := range r.Obligations {
@@ -156,12 +162,32 @@ func main() {
 		}
 		if ok {
 			axioms += "; lemma " + lm.Name + "\n(assert " + lm.Formula + ")\n"
+			if !lm.Local {
+				fnAxioms += "; lemma " + lm.Name + "\n(assert " + lm.Formula + ")\n"
+			}
 		}
 		if sel("lemma."+lm.Name, lm.Props) {
 			o.Functions = append(o.Functions, r)
 		}
 	}
-	eng.prelude = basePrelude() + axioms
+	eng.prelude = basePrelude() + axiomMarker + fnAxioms
+	// an applied lemma that was not proved taints the functions that applied it
+	proved := map[string]bool{}
+	for _, lm := range eng.lemmas {
+		if strings.Contains(axioms, "; lemma "+lm.Name+"\n") {
+			proved[lm.Name] = true
+		}
+	}
+	var tainted []*FuncResult
+	for _, f := range o.Functions {
+		for _, l := range f.UsedLemmas {
+			if !proved[l] && !*gen {
+				tainted = append(tainted, f)
+				f.Errors = append(f.Errors, "applies lemma "+l+" which was not proved in this run")
+				f.OutOfSubset = true
+			}
+		}
+	}
 	{
 		// vacuity guard for the theory itself: prelude + spec theory + proved lemmas must not be contradictory
 		sc := newScript()
